@@ -4,11 +4,15 @@ from __future__ import annotations
 import copy
 import random
 
-from ..engine import live, monitors, specgen, suite
+from ..engine import c12x, live, monitors, specgen, suite
 from ..runner import Env, Outcome, Violation
 
 THEOREMS = ["C12_roundtrip_stable", "C12_resumed_step", "C12_resumed_slots_ok", "C12_queued_keep_retry_state", "C12_waiting_keep_retry_state",
-            "C12_refuted_inprogress_budget", "C12_inprogress_budget_partial", "C12_refuted_scheduled_retry"]
+            "C12_refuted_inprogress_budget", "C12_inprogress_budget_partial", "C12_refuted_scheduled_retry",
+            "C12_resumed_run_restarts_pending", "C12_resumed_run_retry_records", "C12_parked_resume_same_future",
+            "C12_pause_while_waiting_same_future",
+            "C12_roundtrip_iterate", "C12_payload_stable", "C12_todict_read_back", "C12_v0_resumed_step",
+            "C12_foreign_version_reads_nothing", "C12_source_shape"]
 EXPLANATION = (
     "Lean (model Serial = to_serialized -> JSON -> from_serialized): the serialised form is stable after one round trip for every "
     "state; the resumed queue is the queued invocations followed by the in-progress ones, nothing is in progress (worker-limit "
@@ -20,7 +24,21 @@ EXPLANATION = (
     "Search: deterministic workflows (result and store independent of the schedule) are run uninterrupted and, separately, "
     "paused by ctx.to_dict -> JSON at a scheduler-chosen point (queued, running, collecting, retrying), resumed with "
     "Context.from_dict and run to the end: result, state-store contents, completion, and the retry number seen by re-executed "
-    "invocations are compared."
+    "invocations are compared. "
+    "Second half. Lean: for every state, clock and timeout the runner resumed from the serialised context has, per step, started the first "
+    "min(num_workers, #pending) of queued ++ in-progress with a worker each and kept the rest queued in order, and the retry records / recovery "
+    "counts they are started with are the queued invocations' own followed by fresh ones for the formerly running ones (run-level form of the "
+    "budget clause); for every run, every schedule before and after: a run serialised while it only waits for input (nothing buffered, queued, "
+    "running or timed) resumes into the same state, outcome, workers, timers and publishes the same from the pause on (every control-loop action "
+    "commutes with prefixing history; no name outside the workflow's steps ever gets state); any number of round trips equals one; every payload "
+    "from_dict_auto accepts (defaults, legacy requirements, V0 format, any version marker) loads into a fixed point of the round trip; to_dict "
+    "output is read back as the current format; V0 payloads and foreign version markers characterised; the written/read fields, defaults, version "
+    "markers and statements of to_serialized / from_serialized / from_dict_auto / from_v0 / PreContext / from_dict / to_dict are regenerated "
+    "from the sources (GenSerialShape) and pinned next to the model equations. Tie: driver serialctx -- raw payloads not written by to_serialized "
+    "through JSON, the real PreContext and from_serialized, then one more real round trip; generated states through the to_dict path, then the real "
+    "rewind_in_progress against the closed form of the run-level theorems. Search: payload stability and no lost invocation on the implementation "
+    "alone; counts, records and free slots of the resumed run; a human-in-the-loop workflow snapshotted while the run goes on: outcome, result, "
+    "store and, for snapshots taken while waiting with nothing in flight, the exact sequence published from the pause on."
 )
 ASSUMPTIONS = suite.ENGINE_ASSUMPTIONS + [
     "'deterministic workflow' = the generated family whose result and store contents do not depend on the schedule (checked on every run by comparing two uninterrupted schedules) and whose store writes are idempotent per input event, since in-progress invocations are re-executed by design",
@@ -121,7 +139,10 @@ def _pause_resume(env: Env, out: Outcome, n: int, corpus: list[dict]) -> None:
 def run(env: Env) -> Outcome:
     out = Outcome()
     out.rule = ("serde: generated broker states, two round trips; pause: deterministic fan-out/collect workflows with retries (25% with retry delays), "
-                "snapshot_stop at a random quiet point, resume from JSON; non-trivial = the run was actually paused; distinct by (spec, schedule)")
+                "snapshot_stop at a random quiet point, resume from JSON; non-trivial = the run was actually paused; distinct by (spec, schedule); "
+                "payload: raw current-format / V0 dicts (omitted fields, legacy requirements, unknown steps, waiting ids, version markers 1/0/2/none, ~5% malformed), "
+                "non-trivial = something pending, buffered or waiting was loaded; todict: generated states (40% with a backlog) through to_dict -> JSON -> from_dict -> rewind; "
+                "parked: sequential ask/reply workflows, snapshot at the first quiet point(s), non-trivial = snapshot while waiting with nothing in flight")
     corpus = suite.load_corpus("C12")
     suite.serde_corr(env, out, env.budget(1500, 30000), stability_sig="C12/roundtrip_not_stable")
     suite.direct_corr(env, out, env.budget(800, 16000))
@@ -141,4 +162,10 @@ def run(env: Env) -> Outcome:
             kept.append(v)
     del out.violations[before:]
     out.violations.extend(kept)
+    # second half (after everything above, so that the streams above are what they were): payloads that to_serialized did not
+    # write, the full to_dict -> JSON -> from_dict path with the resumed run's closed form, pause points with nothing in flight
+    c12x.payload_stream(env, out, env.budget(400, 8000))
+    c12x.todict_stream(env, out, env.budget(200, 5000))
+    parked = c12x.parked_runs(env, out, env.budget(24, 500), corpus)
+    suite.runner_corr(out, parked, "engine-runner-resumed-parked")
     return out
